@@ -181,13 +181,57 @@ func (t *tcpTransport) Receive(ctx context.Context) (envelope, error) {
 
 func (t *tcpTransport) Close() error {
 	// The connection must be released even if the EOF was already reached
-	if t.conn == nil {
+	conn := t.conn
+	if conn == nil {
 		return errors.New("transport is not open")
+	}
+
+	if !t.eof {
+		lingerConn(conn)
 	}
 
 	err := t.ctxConn.Close()
 	t.conn = nil
 	return err
+}
+
+// lingerTimeout is how long a closing connection waits for the peer to close its side.
+const lingerTimeout = 250 * time.Millisecond
+
+// lingerConn ends the sending direction of the connection and discards what the peer still sends until it
+// closes its side (or lingerTimeout passes). Closing a connection that has unread inbound data makes the
+// system reset it, and a reset lets the peer lose what it has not read yet - typically the finished or
+// failed session that was sent right before the closing.
+func lingerConn(conn net.Conn) {
+	cw, ok := conn.(interface{ CloseWrite() error })
+	if !ok {
+		return
+	}
+	end := time.Now().Add(lingerTimeout)
+	done := make(chan struct{})
+	go func() {
+		// Ends when the peer closes its side or, at last, when the caller closes the connection
+		defer close(done)
+		if err := cw.CloseWrite(); err != nil {
+			return
+		}
+		buf := make([]byte, 1024)
+		for {
+			if _, err := conn.Read(buf); err != nil {
+				// A pending receive operation may have expired the read deadline of the connection
+				var netErr net.Error
+				if errors.As(err, &netErr) && netErr.Timeout() && time.Now().Before(end) {
+					_ = conn.SetReadDeadline(end)
+					continue
+				}
+				return
+			}
+		}
+	}()
+	select {
+	case <-done:
+	case <-time.After(lingerTimeout):
+	}
 }
 
 func (t *tcpTransport) Connected() bool {
